@@ -221,4 +221,57 @@ def cut (f : Int × Nat → Bool) : List (Int × Nat) → List (Int × Nat)
 /-- number of `create_agent` calls in an action list. -/
 def creates (acts : List Act) : Nat := (acts.filter (fun a => a == Act.create)).length
 
+/-! ### wave 3: one scheduler object, several calls with changing run specs
+
+`Model.run_specs(start, stop, dt)` may be called between runs / externally driven steps on the same model and
+scheduler.  `SchedCfg.stepsFromSpecs` is the mechanism fact probed on every run: every call works out
+`round(1/model.dt)` from the run specs in force (true, the code) or keeps the value it computed first
+(false: a cache that is never invalidated — the loop bound, the progress and the "final step" test of the
+collect rule then use the old number of steps per round). -/
+
+structure SchedCfg where
+  stepsFromSpecs : Bool
+deriving DecidableEq, Repr
+
+/-- what survives between calls: the population and (defective mechanism only) the cached steps per round. -/
+structure Sched where
+  pop : Pop
+  cache : Option Nat
+
+/-- the number of steps per round a call under run specs `sp` works with. -/
+def stepsUsed (h : SchedCfg) (sc : Sched) (sp : Spec) : Nat :=
+  if h.stepsFromSpecs then sp.n else sc.cache.getD sp.n
+
+def effSpec (h : SchedCfg) (sc : Sched) (sp : Spec) : Spec := { sp with n := stepsUsed h sc sp }
+
+def cacheAfter (h : SchedCfg) (sc : Sched) (sp : Spec) : Option Nat :=
+  if h.stepsFromSpecs then none else some (stepsUsed h sc sp)
+
+/-- a call on the scheduler, with the run specs in force at that moment. -/
+inductive SCall where
+  | run (sp : Spec)                          -- model.run_specs(…); model.run()
+  | step (sp : Spec) (r : Int) (s : Nat)     -- model.run_specs(…); scheduler.run_step(model, r, s)
+
+/-- the scheduler after the call, and what the call did (its own log / progress / crash flag). -/
+def callOn (c : Cfg) (h : SchedCfg) (P : Prog) (sc : Sched) : SCall → Sched × St
+  | .run sp =>
+    let st := run c P (effSpec h sc sp) sc.pop
+    ({ pop := st.pop, cache := cacheAfter h sc sp }, st)
+  | .step sp r s =>
+    let st := runStep c P (effSpec h sc sp) (St.init sc.pop) r s
+    ({ pop := st.pop, cache := cacheAfter h sc sp }, st)
+
+/-- a history of calls; returns the final scheduler and the outcome of every call. -/
+def historyOn (c : Cfg) (h : SchedCfg) (P : Prog) : Sched → List SCall → Sched × List St
+  | sc, [] => (sc, [])
+  | sc, call :: rest =>
+    let x := callOn c h P sc call
+    let y := historyOn c h P x.1 rest
+    (y.1, x.2 :: y.2)
+
+/-- the same call on a scheduler that has never run anything, with the same population. -/
+def freshCall (c : Cfg) (P : Prog) (pop : Pop) : SCall → St
+  | .run sp => run c P sp pop
+  | .step sp r s => runStep c P sp (St.init pop) r s
+
 end Bptk.C12
